@@ -48,7 +48,7 @@ func init() {
 		Modes: func(tier string) []string { return []string{"plain", "checkptr", "asan"} },
 		Cases: func(tier, mode string) int {
 			a, b, _ := counts(tier, mode)
-			return a + b
+			return a + b + fileCases(tier, mode)
 		},
 		MinNontrivial: 200,
 		CaseTimeout:   180e9,
@@ -57,7 +57,11 @@ func init() {
 }
 
 func run(c *fw.Case) {
-	nOut, _, per := counts(c.Tier, c.Mode)
+	nOut, nStore, per := counts(c.Tier, c.Mode)
+	if c.Index >= nOut+nStore {
+		runFile(c)
+		return
+	}
 	if c.Index < nOut {
 		for i := 0; i < per && !c.Violated(); i++ {
 			runOutputMessage(c, c.Index*per+i)
